@@ -542,6 +542,7 @@ pub fn run_check(prop: &dyn Property, tier: Tier) -> i32 {
                     .iter()
                     .map(|e| {
                         prop.shrinks(&c0)
+                            && std::env::var("VRF_NO_SHRINK").is_err()
                             && prop.in_domain(&e.case)
                             && e.violations.iter().any(|v| {
                                 v.symptom == symptom
